@@ -672,12 +672,37 @@ def evaluate(doc, p):
 # documented effect of one operation on the selection (tree level)
 
 def content_events(c):
-    """JSON events a content value injects: ["s", text] | ["ev", forest]"""
+    """JSON events a content value injects: ["s", text] | ["ev", forest]
+    | ["fn", content] (a callable returning that content, the same at every call)
+    | ["el", tag, forest] (a builder Element with these children)"""
     if c[0] == 's':
         return [['T', ch, False] for ch in c[1]]
     if c[0] == 'ev':
         return flatten(c[1])
+    if c[0] == 'fn':
+        return content_events(c[1])
+    if c[0] == 'el':
+        return flatten([['e', ['', c[1]], [], c[2]]])
     raise ValueError(c)
+
+
+def attrfn_value(n, op):
+    """the value the callable of operation ["attrfn", name, src] returns for element node n:
+    src = attribute name (copy that attribute; None, i.e. delete, when missing) | ["tag"] (the local name of
+    the element, read off the START event) | ["const", v] | ["name"] (the `name` argument it is called with)
+    | ["count"] (the number of attributes of the element)"""
+    src = op[2]
+    if isinstance(src, str):
+        return attr_get(n, src)
+    if src[0] == 'tag':
+        return n[1][1]
+    if src[0] == 'const':
+        return src[1]
+    if src[0] == 'name':
+        return op[1]
+    if src[0] == 'count':
+        return str(len(n[2]))
+    raise ValueError(src)
 
 
 def attrs_set(attrs, name, value):
@@ -742,7 +767,7 @@ def spec_apply(doc, sel, selattrs, op):
             emit_nodes(n[3])
             out.append(['E', n[1]])
         elif name == 'attrfn':
-            out.append(['S', n[1], attrs_set(n[2], op[1], attr_get(n, op[2]))])
+            out.append(['S', n[1], attrs_set(n[2], op[1], attrfn_value(n, op))])
             emit_nodes(n[3])
             out.append(['E', n[1]])
         elif name == 'prepend':
@@ -852,20 +877,28 @@ def gen_op(rng, bufs, doc=None):
     if r < 0.18:
         return ['select', gen_path_for(rng, doc) if doc else gen_path(rng)]
     if r < 0.40:
-        return [rng.choice(INJECT), rng.choice(CONTENTS)]
+        c = rng.choice(CONTENTS)
+        r2 = rng.random()
+        if r2 < 0.2:
+            c = ['fn', c]              # a callable: _inject() calls it at every injection
+        elif r2 < 0.28:
+            c = ['el', rng.choice(['h', 'a']), rng.choice([[], [['t', 'k']], [['e', ['', 'i'], [], []], ['t', 'q']]])]
+        return [rng.choice(INJECT), c]
     if r < 0.49:
         return ['wrap', rng.choice(['w', 'a']), rng.choice([[], [], [['k', 'v']]])]
     if r < 0.52:
         # an Element with children as wrapper: the children come first inside the wrapper
         return ['wrapel', rng.choice(['w', 'a']), rng.choice([[], [['k', 'v']]]),
                 rng.choice([[['t', 'lead']], [['e', ['', 'i'], [], [['t', 'k']]]], [['c', 'x'], ['t', 'y']]])]
-    if r < 0.60:
+    if r < 0.59:
         return ['rename', rng.choice(['n', 'a', 'b'])]
-    if r < 0.68:
+    if r < 0.665:
         return ['attr', rng.choice(ATTRS + ['k']), rng.choice([None, 'new', '1', ''])]
     if r < 0.70:
         # a callable value: copy another attribute of the element (None, i.e. delete, when it is missing)
-        return ['attrfn', rng.choice(ATTRS + ['k']), rng.choice(ATTRS)]
+        # ... or reads the tag off the START event / returns a constant / its `name` argument / counts
+        return ['attrfn', rng.choice(ATTRS + ['k']),
+                rng.choice(ATTRS + [['tag'], ['const', 'c'], ['const', ''], ['name'], ['count']])]
     if r < 0.76:
         return ['copy', rng.choice([0, 1]), rng.random() < 0.5]
     if r < 0.82:
@@ -880,6 +913,8 @@ def gen_op(rng, bufs, doc=None):
         return ['maptext', rng.choice(['rev', 'dup'])]
     if r < 0.925:
         return ['trace']
+    if r < 0.94:
+        return ['apply', 'bang']          # Transformer.apply(function) with a user-written generator function
     return [rng.choice(SIMPLE)]
 
 
@@ -899,10 +934,44 @@ def has_attr(path):
 ZERO_WIDTH = ('before', 'after', 'wrap', 'wrapel', 'filter', 'replace')
 
 
+def gen_lazy_chain(rng, doc=None):
+    """writer-then-reader chains WITHOUT a buffer() barrier (the documented usage
+    `Transformer(p).copy(b).end().select(q).prepend(b)`): the reader injects the buffer as it is at the
+    moment of the injection (theorems lazy_trace_semantics / lazy_raw_chain_wellnested); element / text
+    selections only (hypothesis of C20-attr-structural), one writer (C20-buffer-two-writers)"""
+    def path():
+        for _ in range(20):
+            p = gen_path_for(rng, doc) if doc else gen_path(rng)
+            if not has_attr(p):
+                return p
+        return None
+    p1 = path()
+    if p1 is None:
+        return None
+    writer = [rng.choice(['copy', 'cut']), rng.choice([0, 1]), rng.random() < 0.5]
+    mids = rng.choice([[], [], [['end']], ['end+select'], ['select'], [['rename', 'n']], [['empty']],
+                       [['attr', 'k', 'new']], ['end+select']])
+    mid = []
+    for m in mids:
+        if m in ('select', 'end+select'):
+            p2 = path()
+            if p2 is None:
+                return None
+            mid += ([['end']] if m == 'end+select' else []) + [['select', p2]]
+        else:
+            mid.append(m)
+    reader = [rng.choice(INJECT), ['buf', writer[1]]]
+    return [['select', p1], writer] + mid + [reader]
+
+
 def gen_chain(rng, maxlen=4, doc=None, wild=False):
     """Transformer(path).op.op...: at most maxlen operations after the first select.
     Hypothesis of known finding C20-attr-structural: while an attribute selection is in the
     stream (its ATTR pseudo-event is a zero-width selection) no before/after/wrap/filter/replace."""
+    if not wild and maxlen >= 4 and rng.random() < 0.06:
+        lz = gen_lazy_chain(rng, doc)
+        if lz is not None:
+            return lz
     n = rng.choice([0, 1, 1, 1, 2, 2, 2, 3, 3, 4])
     n = min(n, maxlen)
     ops = [['select', gen_path_for(rng, doc) if doc else gen_path(rng)]]
@@ -953,6 +1022,18 @@ def gen_tree_case(rng):
     for _ in range(n):
         # prefer branching: an origin that already has a descendant
         parent = rng.randrange(len(chains)) if rng.random() < 0.7 else 0
+        if len(chains) >= 2 and rng.random() < 0.38:
+            # t_parent.apply(t_j): the argument is a Transformer, ALL its links are appended (the same link
+            # objects then sit in several chains, and -- j = parent, or j derived from parent -- twice in one)
+            parent = rng.randrange(len(chains))
+            j = rng.randrange(1, len(chains)) if rng.random() < 0.8 else 0
+            if j == parent and rng.random() < 0.6:
+                j = (j + 1) % len(chains)
+            new = chains[parent] + chains[j]
+            if len(new) <= TREE_MAXLEN and chain_in_domain(new):
+                derive.append([parent, ['cat', j]])
+                chains.append(new)
+                continue
         attr_seen = any(o[0] == 'select' and has_attr(o[1]) for o in chains[parent])
         for _try in range(30):
             op = gen_op(rng, 2, doc)
@@ -974,19 +1055,31 @@ def gen_tree_case(rng):
     apply = [rng.randrange(len(chains)) for _ in range(rng.choice([2, 3, 4]))]
     if 0 not in apply:
         apply.append(0)                   # the shared origin is used again after the derivations
+    cats = [i + 1 for i, (_, op) in enumerate(derive) if op[0] == 'cat']
+    if cats and not any(k in cats for k in apply):
+        apply.insert(rng.randrange(len(apply) + 1), rng.choice(cats))
     return {'kind': 'tree', 'doc': doc, 'root': root, 'derive': derive, 'apply': apply}
 
 
+TREE_MAXLEN = 9
+
+
 def tree_chains(case):
+    """the chain (list of operations) of every transformer object of a derivation tree; a derivation is
+    [parent, op] (an operation method on object `parent`) or [parent, ["cat", j]] (parent.apply(object j))"""
     chains = [[['select', case['root']]]]
     for parent, op in case['derive']:
-        chains.append(chains[parent] + [op])
+        if op[0] == 'cat':
+            chains.append(chains[parent] + chains[op[1]])
+        else:
+            chains.append(chains[parent] + [op])
     return chains
 
 
 def tree_shape(case):
-    """parents of the derived transformers, e.g. 0,0,1: two children of the root, one grandchild"""
-    return ','.join(str(p) for p, _ in case['derive'])
+    """parents of the derived transformers, e.g. 0,0,1: two children of the root, one grandchild;
+    1+2: object 1 with object 2 as the argument of apply()"""
+    return ','.join('%d+%d' % (p, op[1]) if op[0] == 'cat' else str(p) for p, op in case['derive'])
 
 
 def chain_in_domain(ops):
